@@ -100,7 +100,10 @@ def main():
     a = ap.parse_args()
 
     fl = a.flavour
-    cc = a.cc or ("clang" if fl == "asan" else "gcc")
+    variant = ""
+    if fl.startswith("tsanhook_"):
+        fl, variant = "tsanhook", fl.split("_", 1)[1]
+    cc = a.cc or ("clang" if fl == "asan" or variant == "clang" else "gcc")
     lines = repo_compile_lines(a.repo)
     extra = []
     opt = a.opt
@@ -111,6 +114,8 @@ def main():
         extra += ["-fsanitize=address,undefined", "-fno-sanitize=alignment",
                   "-fsanitize-undefined-trap-on-error", "-fno-omit-frame-pointer", "-g"]
     elif fl == "tsanhook":
+        if variant == "o0":
+            opt = opt or "-O0"
         extra += ["-fsanitize=thread", "-g"]
         if cc.startswith("clang"):
             extra += ["-fsanitize-coverage=trace-pc-guard"]
@@ -124,7 +129,7 @@ def main():
         extra.append("-D" + d)
     extra += a.extra
     # -w: the dry-run flags contain -Wall -Wextra; warnings are not our business
-    key = tree_hash(a.repo, json.dumps([fl, cc, opt, extra, a.no_redirect]))
+    key = tree_hash(a.repo, json.dumps([fl, variant, cc, opt, extra, a.no_redirect]))
     os.makedirs(a.outdir, exist_ok=True)
     stamp = os.path.join(a.outdir, "STAMP")
     objs = [os.path.join(a.outdir, o) for _, o, _ in lines]
